@@ -19,4 +19,8 @@ if [ "${1:-}" = "race" ]; then RACE="-race"; OUT=bin/verifmc-race; fi
   if ! go build $RACE -overlay "$OV" -o "$OUT" ./cmd/verifmc 2> bin/build.err; then
     echo "BUILD-FAILED:"; cat bin/build.err; exit 2
   fi
+  # The real binary (C06 binary tier), built from the same tree and overlay.
+  if [ -z "$RACE" ] && ! go build -overlay "$OV" -o bin/omniwitness github.com/transparency-dev/witness/cmd/omniwitness 2> bin/build.err; then
+    echo "BUILD-FAILED:"; cat bin/build.err; exit 2
+  fi
 ) 9> bin/.lock
